@@ -79,8 +79,8 @@ def oracle(backend, uni, sess):
                 if x["id"] in ids:
                     v.append({"clause": "not-served-by-req", "sig": x["id"][:8],
                               "detail": "REQ ids still serves %s after deletion %s" % (x["id"][:8], nm)})
-                got = sess.w.call(sess.w.storage.get_event(x["id"]))
-                if got is not None:
+                got = sess.w.http_get(x["id"])
+                if not isinstance(got, tuple):
                     v.append({"clause": "not-served-by-http", "sig": x["id"][:8],
                               "detail": "get_event (/e/<id>) still serves %s after deletion %s" % (x["id"][:8], nm)})
         return v
@@ -88,8 +88,20 @@ def oracle(backend, uni, sess):
     return on_transition
 
 
+def state_oracle(backend, uni, sess):
+    def on_state(hist, dump):
+        # every stored event is viewed over HTTP when its state is first reached (a later deletion must still make it disappear there)
+        for eid in store.decode_store(backend, dump):
+            body = sess.w.http_get(eid)
+            if isinstance(body, tuple):
+                return [{"clause": "stored-event-served-by-http", "sig": eid[:8], "detail": "/e/%s answers %r although the event is stored" % (eid[:8], body)}]
+        return []
+
+    return on_state
+
+
 CHECK = store.StoreCheck(
-    ID, universes, oracle,
+    ID, universes, oracle, state_oracle=state_oracle,
     depths={"quick": 3, "thorough": 4},
     rule="universe U8: authors A,B; regular a1(t10) a2(t20) a3(t40) b1(t10); kind-5 deletions by A and B at t30 (and t20) referencing own "
          "older, own newer, foreign, unknown, several, upper-case, p/E-tag only, malformed (zz, short, bare, empty) ids; "
